@@ -824,8 +824,18 @@ func execStringsPadding(fn parser.Function, args []value.Primary, direction Dire
 		return args[0], nil
 	}
 
+	if padstrLen < 1 {
+		return nil, NewFunctionInvalidArgumentError(fn, fn.Name, "pad string must not be empty")
+	}
+
 	padLen := length - strLen
-	repeat := int(math.Ceil(float64(padLen) / float64(padstrLen)))
+	repeat := padLen / padstrLen
+	if 0 < padLen%padstrLen {
+		repeat++
+	}
+	if (math.MaxInt32-len(str))/len(padstr) < repeat {
+		return nil, NewFunctionInvalidArgumentError(fn, fn.Name, "padded string is too long")
+	}
 	padding := strings.Repeat(padstr, repeat)
 	switch padType {
 	case PaddingRuneCount:
